@@ -3,6 +3,8 @@ package sim
 import (
 	"context"
 	"errors"
+	"strconv"
+	"strings"
 	"sync"
 	"sync/atomic"
 	"time"
@@ -69,7 +71,9 @@ type SpyStore struct {
 	Calls []StoreCall
 	// Intercept is called at entry of every call; it may block (scheduler) and returns a fault mode.
 	Intercept func(op, id string) string
-	Now       func() time.Time
+	// Unfire takes back the fault the last Intercept call announced (it turned out to have no effect)
+	Unfire func()
+	Now    func() time.Time
 }
 
 var _ oidc.SessionStore = (*SpyStore)(nil)
@@ -133,7 +137,7 @@ func (s *SpyStore) SetTokenResponse(ctx context.Context, id string, t *oidc.Toke
 		return ErrInjected
 	}
 	var err error
-	redisOutage(fault == "redis", func() { err = s.Inner.SetTokenResponse(ctx, id, t) })
+	s.withRedisFault(seq, fault, func() { err = s.Inner.SetTokenResponse(ctx, id, t) })
 	if fault == "after" {
 		err = ErrInjected
 	}
@@ -149,7 +153,7 @@ func (s *SpyStore) GetTokenResponse(ctx context.Context, id string) (*oidc.Token
 	}
 	var t *oidc.TokenResponse
 	var err error
-	redisOutage(fault == "redis", func() { t, err = s.Inner.GetTokenResponse(ctx, id) })
+	s.withRedisFault(seq, fault, func() { t, err = s.Inner.GetTokenResponse(ctx, id) })
 	if fault == "after" {
 		t, err = nil, ErrInjected
 	}
@@ -165,7 +169,7 @@ func (s *SpyStore) SetAuthorizationState(ctx context.Context, id string, a *oidc
 		return ErrInjected
 	}
 	var err error
-	redisOutage(fault == "redis", func() { err = s.Inner.SetAuthorizationState(ctx, id, a) })
+	s.withRedisFault(seq, fault, func() { err = s.Inner.SetAuthorizationState(ctx, id, a) })
 	if fault == "after" {
 		err = ErrInjected
 	}
@@ -181,7 +185,7 @@ func (s *SpyStore) GetAuthorizationState(ctx context.Context, id string) (*oidc.
 	}
 	var a *oidc.AuthorizationState
 	var err error
-	redisOutage(fault == "redis", func() { a, err = s.Inner.GetAuthorizationState(ctx, id) })
+	s.withRedisFault(seq, fault, func() { a, err = s.Inner.GetAuthorizationState(ctx, id) })
 	if fault == "after" {
 		a, err = nil, ErrInjected
 	}
@@ -196,7 +200,7 @@ func (s *SpyStore) ClearAuthorizationState(ctx context.Context, id string) error
 		return ErrInjected
 	}
 	var err error
-	redisOutage(fault == "redis", func() { err = s.Inner.ClearAuthorizationState(ctx, id) })
+	s.withRedisFault(seq, fault, func() { err = s.Inner.ClearAuthorizationState(ctx, id) })
 	if fault == "after" {
 		err = ErrInjected
 	}
@@ -211,7 +215,7 @@ func (s *SpyStore) RemoveSession(ctx context.Context, id string) error {
 		return ErrInjected
 	}
 	var err error
-	redisOutage(fault == "redis", func() { err = s.Inner.RemoveSession(ctx, id) })
+	s.withRedisFault(seq, fault, func() { err = s.Inner.RemoveSession(ctx, id) })
 	if fault == "after" {
 		err = ErrInjected
 	}
@@ -227,6 +231,86 @@ func (s *SpyStore) RemoveAllExpired(ctx context.Context) error {
 	err := s.Inner.RemoveAllExpired(ctx)
 	s.done(seq, func(c *StoreCall) { c.Err = err })
 	return err
+}
+
+// nthFault is the hook of the shared Redis client: while armed, the n-th command sent fails and the others go through
+// (fault modes "redis1", "redis2", ...: a hiccup on ONE command of a store call).
+type nthFault struct {
+	mu    sync.Mutex
+	armed bool
+	n     int
+	seen  int
+}
+
+func (h *nthFault) DialHook(next redis.DialHook) redis.DialHook { return next }
+func (h *nthFault) ProcessHook(next redis.ProcessHook) redis.ProcessHook {
+	return func(ctx context.Context, cmd redis.Cmder) error {
+		h.mu.Lock()
+		fail := false
+		if h.armed {
+			h.seen++
+			fail = h.seen == h.n
+		}
+		h.mu.Unlock()
+		if fail {
+			err := errors.New("ERR injected failure of one redis command")
+			cmd.SetErr(err)
+			return err
+		}
+		return next(ctx, cmd)
+	}
+}
+func (h *nthFault) ProcessPipelineHook(next redis.ProcessPipelineHook) redis.ProcessPipelineHook {
+	return func(ctx context.Context, cmds []redis.Cmder) error {
+		h.mu.Lock()
+		fail := false
+		if h.armed {
+			h.seen++
+			fail = h.seen == h.n
+		}
+		h.mu.Unlock()
+		if fail {
+			err := errors.New("ERR injected failure of one redis pipeline")
+			for _, c := range cmds {
+				c.SetErr(err)
+			}
+			return err
+		}
+		return next(ctx, cmds)
+	}
+}
+
+var redisNth = &nthFault{}
+
+// withRedisFault runs the store call under the Redis fault its mode names; a "redisN" fault on a call that sends fewer
+// than N commands has no effect and is taken back (nothing was injected).
+func (s *SpyStore) withRedisFault(seq int, mode string, f func()) {
+	if !redisFaultMode(mode, f) {
+		s.done(seq, func(c *StoreCall) { c.Fault = "" })
+		if s.Unfire != nil {
+			s.Unfire()
+		}
+	}
+}
+
+// redisFaultMode runs f under the Redis fault the mode names: "redis" = every command fails, "redisN" = only the
+// N-th command of this store call fails. It reports whether anything was made to fail.
+func redisFaultMode(mode string, f func()) (effective bool) {
+	if strings.HasPrefix(mode, "redis") && len(mode) > len("redis") {
+		n, _ := strconv.Atoi(mode[len("redis"):])
+		Redis()
+		redisNth.mu.Lock()
+		redisNth.armed, redisNth.n, redisNth.seen = true, n, 0
+		redisNth.mu.Unlock()
+		f()
+		redisNth.mu.Lock()
+		redisNth.armed = false
+		effective = redisNth.seen >= n
+		redisNth.mu.Unlock()
+		return effective
+	}
+	redisOutage(mode == "redis", f)
+	return true
 }
 
 // redisOutage makes every Redis command fail for the duration of f (fault mode "redis").
@@ -264,6 +348,7 @@ func Redis() (*miniredis.Miniredis, *redis.Client) {
 			panic(err)
 		}
 		redisClient = redis.NewClient(&redis.Options{Addr: redisSrv.Addr()})
+		redisClient.AddHook(redisNth)
 	})
 	return redisSrv, redisClient
 }
